@@ -432,4 +432,16 @@ Definition conn_run (cfg : config) (g : gstate) (now : Z * Z) (clk : Z) (evs : l
   records <~ conn_records cfg evs ;;
   process_records cfg g (new_conn cfg) now clk records.
 
+(* the agent over its life: one connection after the other on the same shared state (a client that reconnects
+   after its bad input, or after an abrupt disconnect, is the next element of the list) *)
+Fixpoint agent_run (cfg : config) (g : gstate) (now : Z * Z) (clk : Z) (conns : list (list F.event))
+  : outcome (gstate * list (list rec_result)) :=
+  match conns with
+  | [] => Ok (g, [])
+  | evs :: conns' =>
+    '(g1, _, rs) <~ conn_run cfg g now clk evs ;;
+    '(g2, rss) <~ agent_run cfg g1 now clk conns' ;;
+    Ok (g2, rs :: rss)
+  end.
+
 End Process.
